@@ -113,9 +113,12 @@ def store (rows : List Row) : List Row :=
 
 /-! ### the domain of the law: representable cells -/
 
-/-- XML-legal for openpyxl (`ILLEGAL_CHARACTERS_RE` rejects the C0 controls) and safe against newline
-    normalisation: no character below U+0020 -/
-def charOK (c : Char) : Bool := 32 ≤ c.toNat && c.toNat != 0xFFFE && c.toNat != 0xFFFF
+/-- characters openpyxl gives back unchanged: everything from U+0020 plus tab and line feed.  The other C0 controls
+    are refused by openpyxl (`ILLEGAL_CHARACTERS_RE`), and a carriage return — XML-legal — comes back as a line feed
+    (XML end-of-line normalisation): `"a\rb"` is read back as `"a\nb"` (negative example in Props/C09.lean and in
+    the harness) -/
+def charOK (c : Char) : Bool :=
+  (32 ≤ c.toNat || c.toNat == 9 || c.toNat == 10) && c.toNat != 0xFFFE && c.toNat != 0xFFFF
 
 /-- text openpyxl gives back unchanged: non-empty, not a formula, legal characters -/
 def strRepresentable (s : Str) : Bool := !s.isEmpty && s.head? != some '=' && s.all charOK
@@ -137,10 +140,12 @@ def strLe : Str → Str → Bool
   | _ :: _, [] => false
   | a :: as, b :: bs => a.toNat < b.toNat || (a == b && strLe as bs)
 
-/-- ISO token of a naive whole-second timestamp on or after 1900-03-01 (the 1900 leap-year bug of the
-    serial date format ends there) and before year 10000 -/
+/-- ISO token of a naive whole-second timestamp on or after 1900-01-01 (openpyxl's serial-date conversion handles
+    the phantom 1900-02-29 of the format in both directions: January and February 1900 round-trip, sampled by the
+    harness) and before year 10000.  1899-12-31 is serial 0 and is read back as a time of day — the reader rejects
+    it (negative example) -/
 def dtRepresentable (t : Str) : Bool :=
-  !t.contains '.' && tzOf t = [] && t.length = 19 && strLe "1900-03-01".toList (t.take 10)
+  !t.contains '.' && tzOf t = [] && t.length = 19 && strLe "1900-01-01".toList (t.take 10)
 
 def cellRepresentable : Cell → Bool
   | .str s => strRepresentable s
@@ -205,6 +210,24 @@ def excelWF (t : TableVal) : Bool :=
      | [] => true
      | c :: _ => firstColumnOK c)
 
+
+/-! ## sheet names (openpyxl `create_sheet` / `Worksheet.title`) -/
+
+/-- case-insensitive key of a sheet name.  openpyxl compares `str.lower()`; Unicode case folding is not modelled, so
+    every non-ASCII character is identified with every other one (conservative: more names collide here than there) -/
+def sheetKey (n : Str) : Str := n.map (fun c => if c.toNat < 128 then lowerChar c else '?')
+
+def sheetCharOK (c : Char) : Bool :=
+  32 ≤ c.toNat && c.toNat != 0xFFFE && c.toNat != 0xFFFF &&
+  c != '\\' && c != '/' && c != '?' && c != '*' && c != '[' && c != ']' && c != ':'
+
+/-- one legal sheet title: not empty (an empty title is replaced by `Sheet`), at most 31 characters (openpyxl only
+    warns beyond that; Excel refuses), none of `\ / ? * [ ] :` (openpyxl raises ValueError) -/
+def sheetNameOK (n : Str) : Bool := !n.isEmpty && decide (n.length ≤ 31) && n.all sheetCharOK
+
+/-- the sheet names of a workbook: each legal, pairwise distinct ignoring case (`create_sheet` silently renames a
+    duplicate: `{"A", "a"}` is written as `A`, `a1`) -/
+def sheetNamesOK (names : List Str) : Bool := names.all sheetNameOK && distinct (names.map sheetKey)
 
 /-! ## styling: the index arithmetic of `_style_tables_in_worksheet` -/
 
